@@ -304,6 +304,8 @@ class UF(Bits):
 
   def fbin(self, op, dt, a, b):
     s = _FP[dt]
+    if op in ('add', 'mul') and a.get_id() > b.get_id():
+      a, b = b, a  # commutative operations: canonical argument order
     return self._f('f' + op, dt, s, s, s)(a, b)
 
   def fun(self, op, dt, a):
